@@ -52,12 +52,21 @@ pub fn run(k: &str, a: &Value) -> Option<Value> {
                    "surf": {"point": [fo(sp.point.x), fo(sp.point.y), fo(sp.point.z)], "normal": [fo(sp.normal.x), fo(sp.normal.y), fo(sp.normal.z)]},
                    "closest": [fo(c.x), fo(c.y), fo(c.z)]})
         }
+        "mesh_section" if a["scene"].as_str() == Some("all") => {
+            let mut all = vec![];
+            for sc in ["box_z", "box_diagonal", "box_mixed", "box_corner", "two_boxes"] {
+                all.push(run("mesh_section", &json!({"scene": sc})).unwrap());
+            }
+            json!({"scenes": all})
+        }
         "mesh_section" => {
             use engeom::{Plane3, UnitVec3};
             use parry3d_f64::query::IntersectResult;
             let scene = a["scene"].as_str().unwrap();
             let (m, n, d): (Mesh, Vector3, f64) = match scene {
                 "box_z" => (Mesh::create_box(2.0, 2.0, 2.0, false), Vector3::new(0.0, 0.0, 1.0), 0.3),
+                "box_mixed" => (Mesh::create_box(2.0, 2.0, 2.0, false), Vector3::new(0.6, -0.8, 0.0), 0.5),
+                "box_corner" => (Mesh::create_box(2.0, 2.0, 2.0, false), Vector3::new(1.0, 1.0, 1.0).normalize(), 2.0 * 3.0_f64.sqrt() - 0.0002),
                 "box_diagonal" => (Mesh::create_box(2.0, 3.0, 1.0, false), Vector3::new(1.0, 1.0, 0.2).normalize(), 0.1),
                 _ => {
                     // two disjoint boxes: two rings
